@@ -1,6 +1,7 @@
 import Pyunicorn.Model.Proto
 import Pyunicorn.Model.Repr
 import Pyunicorn.Model.ReprAttrs
+import Pyunicorn.Model.ReprEdges
 /-! Line-protocol driver for C05 (see harness/c05.py for the request grammar). -/
 open Pyunicorn Pyunicorn.Proto Pyunicorn.Repr
 
@@ -43,8 +44,9 @@ def showGraph (net : Net) : String :=
   let es := es.filter fun p => net.directed || decide (p.1 ≤ p.2)
   if es.isEmpty then "-" else join (es.map fun p => s!"{p.1},{p.2}") ";"
 
+/-- `link_attribute(name)`, computed by the loop over the edge ids (`Repr.linkAttrLoop`) -/
 def showAttr (x : NetA) (a : String) : String :=
-  match linkAttrA x a with
+  match linkAttrLoopA x a with
   | none => "none"
   | some f => showRatMat ((List.range x.core.N).map fun i => (List.range x.core.N).map fun j => f i j)
 
@@ -54,6 +56,22 @@ def attrName : Nat → String
   | 2 => "corr"
   | _ => "aux_1"
 
+/-- the edge attribute `a` as the embedded graph object holds it: `i,j,value` per edge, listed
+by edge (an undirected edge as (smaller, larger)), ties by edge id -/
+def showEs (x : NetA) (a : String) : String :=
+  match edgeValues x a with
+  | none => "none"
+  | some rows =>
+    let d := x.core.directed
+    let out := (pairs x.core.N x.core.N).flatMap fun p =>
+      (rows.filter fun q => normEdge d q.1 == p).map fun q => s!"{p.1},{p.2},{showRat q.2}"
+    if out.isEmpty then "-" else join out ";"
+
+def showAvg (x : NetA) (a : String) : String :=
+  match avgLinkAttrA x a with
+  | none => "none"
+  | some v => showRats v
+
 def showNet (x : NetA) : String :=
   let net := x.core
   let gvw := match net.gvw with
@@ -62,7 +80,9 @@ def showNet (x : NetA) : String :=
   let names := if x.names.isEmpty then "-" else join x.names ","
   join [toString net.N, toString net.nLinks, showRat net.density, showIntMat net.spA,
         showGraph net, showRats net.w, showRat net.total, showRat net.mean,
-        showAttr x (attrName 1), gvw, showAttr x (attrName 2), showAttr x (attrName 3), names] "|"
+        showAttr x (attrName 1), gvw, showAttr x (attrName 2), showAttr x (attrName 3), names,
+        showEs x (attrName 1), showEs x (attrName 2), showEs x (attrName 3),
+        showAvg x (attrName 1), showAvg x (attrName 2)] "|"
 
 /-! arguments of the history statements are small formulas evaluated on both sides
 (harness/c05.py: `formula_w`, `formula_v`, `formula_a`) -/
@@ -117,7 +137,7 @@ def applyOp (cosLat : List Rat) (_wtype : Nat) (r : Except Err NetA) (op : Strin
     Except Err NetA := do
   let x ← r
   match parseOp x.core op with
-  | some o => stepA id x o
+  | some o => stepL id x o       -- `set_link_attribute` through the per-edge loop
   | none =>
   let gml := gmlStoreA stripUnderscores
   match op with
@@ -141,10 +161,14 @@ def answer (toks : List String) : String :=
       | _ => none
     let r0 : Except Err NetA :=
       if ctor == "igraph" then
-        fromIGraphA ⟨⟨a.toNat!, d, pairsOf (natMat data), optRats w, none⟩,
-          match optRats attr with
+        -- an igraph object / a file igraph wrote: edge ids in the order listed
+        let h := igraphNew a.toNat! d (pairsOf (natMat data)) (optRats w)
+          (match optRats attr with
           | none => []
-          | some vs => [(attrName 1, vs), (attrName 2, vs.map fun v => -v / 2)]⟩
+          | some vs => [(attrName 1, vs), (attrName 2, vs.map fun v => -v / 2)])
+        if cls == "geo" then loadViaAdjacencyA h (some (geoWeights cl 1))   -- GeoNetwork.Load
+        else if cls == "spatial" then loadViaAdjacencyA h none              -- SpatialNetwork.Load
+        else fromIGraphA h                                                  -- FromIGraph / Load
       else
         -- subclass constructors: a = N, b = threshold, data = similarity / series / resistances
         let q := (rats b).headD 0
